@@ -86,6 +86,7 @@ REQUIRED_COUNTERS = (['w:' + w for w in WRAPPERS] + ['leaf:' + l for l in LEAVES
                         'sem:multi:depth3_2plus_stages_award', 'sem:multi:depth3_prev_gains_value',
                         'sem:multi:depth4_value', 'sem:unused:depth3_value', 'sem:unused:depth3_later_stage_awards',
                         'sem:cond:eliminates_some_depth3',
+                        'seat_table_order_differs_from_votes', 'sem:post:merged_selections', 'key_order_checked',
                         'seat_table_shared:repeated_call', 'seat_table_shared:later_stage',
                         'seat_table_shared:repeated_call_and_later_stage',
                         'num:fraction_votes', 'num:fraction_votes_big_denominator', 'num:votes_1e18_or_more',
@@ -279,6 +280,8 @@ def build_conv(c):
         return vconv.PartyTotals()
     if k == 'merged_distributions':
         return vconv.MergedDistributions()
+    if k == 'merged_selections':
+        return vconv.MergedSelections()
     if k == 'inverted_simple':
         return vconv.InvertedSimpleVotes()
     if k == 'sel_to_dist':
@@ -1023,7 +1026,32 @@ def vflag_prev(b):
     return bool(vcore.accepts_prev_gains(b.obj))
 
 
+def _bycon_rooted(node):
+    """the top-level keys of the result are the constituencies of a ByConstituency (its own result order is part of the
+    observable: evaluated constituencies in the order of the votes, then the ones without a value)"""
+    k = node['k']
+    if k == 'bycon':
+        return True
+    if k in ('vs', 'fixed', 'cond', 'preapp'):
+        return _bycon_rooted(node['e'])
+    return False
+
+
+def _key_order(x):
+    return [json.dumps(canon_v(k), sort_keys=True) for k, _ in x['dict']] if isinstance(x, dict) and 'dict' in x else None
+
+
 def oracle(case, obs):
+    out = _oracle(case, obs)
+    if not out and _bycon_rooted(case['tree']) and not _is_err(obs['res']):
+        h, _hd, _root = hand_eval(case)
+        if _key_order(obs['res']) is not None and _key_order(h) is not None and _key_order(obs['res']) != _key_order(h):
+            out = [('bycon:key_order_differs', f'constituencies in the order {_key_order(obs["res"])}, by hand (order of '
+                                               f'the votes, then the ones without a value) {_key_order(h)}')]
+    return out
+
+
+def _oracle(case, obs):
     out = []
     w = obs['res']
     if _is_err(w) and str(w['err']).startswith('build:'):
@@ -1076,6 +1104,8 @@ def compare(case, iobs, mobs):
             msgs.append(f'impl={json.dumps(w)[:300]} model={json.dumps(m)[:300]}')
     elif canon_v(w) != canon_v(m):
         msgs.append(f'impl={json.dumps(canon_v(w))[:300]} model={json.dumps(canon_v(m))[:300]}')
+    elif _bycon_rooted(case['tree']) and _key_order(w) != _key_order(m):
+        msgs.append(f'key order impl={_key_order(w)} model={_key_order(m)}')
     if iobs['flags'] != mobs.get('flags'):
         msgs.append(f'dispatch flags impl={iobs["flags"]} model={mobs.get("flags")}')
     return '; '.join(msgs) or None
@@ -1150,7 +1180,7 @@ def tree_kinds(node):
 def describe_conv(c):
     k = c['c']
     names = {'vote_totals': 'VoteTotals()', 'constituency_totals': 'ConstituencyTotals()', 'party_totals': 'PartyTotals()',
-             'merged_distributions': 'MergedDistributions()', 'inverted_simple': 'InvertedSimpleVotes()'}
+             'merged_distributions': 'MergedDistributions()', 'merged_selections': 'MergedSelections()', 'inverted_simple': 'InvertedSimpleVotes()'}
     if k in names:
         return names[k]
     if k == 'sel_to_dist':
@@ -1446,7 +1476,10 @@ def g_app(rng, d, cons, kind):
     if kind == 'app_int':
         return {'int': str(rng.choice([0, 0, 9, 9, 12, 1, 2]) if rng.random() < 0.3 else rng.randint(1, 4))}
     if kind == 'app_dict':
-        return {'dict': [[c, str(rng.choice([0, 1, 1, 2, 3, 4, 9]))] for c in cons]}
+        ents = [[c, str(rng.choice([0, 1, 1, 2, 3, 4, 9]))] for c in cons]
+        if rng.random() < 0.5:
+            rng.shuffle(ents)       # the table lists the constituencies in another order than the votes
+        return {'dict': ents}
     if kind == 'app_dist':
         return {'ev': g_d1(rng, max(d, 0)) if rng.random() < 0.5 else leaf('ha', divisor=rng.choice(DIVS))}
     if kind == 'app_dist_seatless':
@@ -1498,6 +1531,13 @@ def g_f2(rng, d, cons, spec):
     """nested votes -> flat distribution"""
     k = rng.choice(['post_merge', 'post_merge', 'pre_totals', 'post_totals', 'post_totals', 'post_totals', 'post_bc',
                     'post_bc_chain', 'remapp', 'remapp'])
+    if rng.random() < 0.25:
+        # an ORDER-SENSITIVE consumer of the per-constituency results: equally ranked candidates of different
+        # constituencies come out in the order of the constituencies
+        app_kind = spec if spec.startswith('app') else None
+        inner = {'k': 'bycon', 'e': rng.choice([leaf('plurality'), leaf('input_order'), g_s1(rng, max(d - 2, 0))]),
+                 'app': g_app(rng, d - 2, cons, app_kind)}
+        return {'k': 'post', 'e': inner, 'c': {'c': 'merged_selections'}}, spec
     if k in ('post_bc', 'post_bc_chain') and d > 1:
         # selections per constituency -> distributions per constituency (-> one distribution): the converter
         # changes the kind of value / the key level
@@ -1662,6 +1702,16 @@ def mk_case(tree, args, tags):
         tags.append('num:near_tie_at_magnitude')
     if sum(1 for v in nums if v == 0) >= 2:
         tags.append('num:zero_vote_parties_2plus')
+    vv = args.get('votes')
+    if isinstance(vv, dict):
+        vorder = [k for k, _ in vv['dict']]
+        tables = [nn] if isinstance(nn, dict) else []
+        tables += [n2['app'] for n2 in _nodes(tree) if n2['k'] in ('bycon', 'preapp') and isinstance(n2.get('app'), dict)
+                   and 'dict' in n2['app']]
+        for tb in tables:
+            torder = [k for k, _ in tb['dict'] if k in vorder]
+            if torder != [k for k in vorder if k in torder]:
+                tags.append('seat_table_order_differs_from_votes')
     pv = args.get('prev')
     if isinstance(pv, dict) and isinstance(args.get('votes'), dict):
         vk = {k for k, _ in args['votes']['dict']}
@@ -1745,7 +1795,10 @@ def gen_nested(rng, d):
         n = rng.randint(2 * len(cons), 3 * len(cons) + 2)     # mostly every constituency gets a seat
         args['n'] = str(n)
     elif spec == 'dict':
-        args['n'] = {'dict': [[c, str(rng.choice([0, 1, 1, 2, 3, 9]))] for c in cons]}
+        ents = [[c, str(rng.choice([0, 1, 1, 2, 3, 9]))] for c in cons]
+        if rng.random() < 0.5:
+            rng.shuffle(ents)
+        args['n'] = {'dict': ents}
     elif spec in ('app_int', 'app_dict'):
         if rng.random() < 0.3:
             args['n'] = str(rng.randint(1, 5))     # ignored: the fixed apportioner wins
@@ -2100,6 +2153,8 @@ def _tag_semantics(case):
     except Exception:       # noqa
         return case
     tags = set(case['_tags']) | h.notes
+    if ok and _bycon_rooted(case['tree']):
+        tags.add('key_order_checked')
     if ok:
         tags |= {'value:' + k for k in set(tree_kinds(case['tree'])) if k not in LEAF_TAKES}
     case['_tags'] = sorted(tags)
